@@ -11,13 +11,16 @@ import (
 
 // c10BatchRound is one multi-object transaction of a batch scenario.
 type c10BatchRound struct {
-	Kind          string      `json:"kind"` // update-orders | batch
-	NewOrders     []*c10Order `json:"new_orders"`
-	NewAccts      []*c10Acct  `json:"new_accts,omitempty"`
-	Snap          *c10Snap    `json:"snap,omitempty"`
-	Delete        bool        `json:"delete,omitempty"`
-	ReopenStaged  bool        `json:"reopen_staged,omitempty"`
-	ReopenApplied bool        `json:"reopen_applied,omitempty"`
+	Kind      string      `json:"kind"` // update-orders | batch
+	NewOrders []*c10Order `json:"new_orders"`
+	NewAccts  []*c10Acct  `json:"new_accts,omitempty"`
+	Snap      *c10Snap    `json:"snap,omitempty"`
+	Delete    bool        `json:"delete,omitempty"`
+	// Superseded: this proposal is only staged; the next round re-proposes a batch with
+	// the SAME batch id and different content (no delete/complete in between).
+	Superseded    bool `json:"superseded,omitempty"`
+	ReopenStaged  bool `json:"reopen_staged,omitempty"`
+	ReopenApplied bool `json:"reopen_applied,omitempty"`
 }
 
 // c10BatchCase is a replayable multi-object scenario: initial accounts and
@@ -62,39 +65,60 @@ func (c *c10Run) genBatchCase() *c10BatchCase {
 			bc.Rounds = append(bc.Rounds, rd)
 			continue
 		}
-		spec := c.g.snap()
-		if usedID[spec.BatchID] {
+		first := c.g.snap()
+		if usedID[first.BatchID] {
 			continue
 		}
-		usedID[spec.BatchID] = true
-		spec.Accounts, spec.Orders = nil, nil
-		rd := c10BatchRound{Kind: "batch", Snap: spec, Delete: r.Rng.Intn(5) == 0,
-			ReopenStaged: r.Rng.Intn(3) == 0, ReopenApplied: r.Rng.Intn(2) == 0}
-		for _, a := range bc.Accts {
-			if r.Rng.Intn(4) != 0 || len(rd.NewAccts) == 0 {
-				ns := c.g.acct()
-				ns.TraderKey, ns.Family, ns.Index = a.TraderKey, a.Family, a.Index
-				rd.NewAccts = append(rd.NewAccts, ns)
-			}
+		usedID[first.BatchID] = true
+		proposals := 1
+		if r.Rng.Intn(3) == 0 {
+			proposals = 2 + r.Rng.Intn(2)
 		}
-		for _, o := range bc.Orders {
-			if r.Rng.Intn(4) != 0 || len(rd.NewOrders) == 0 {
-				// batch modifiers change base fields only (state, units, ... – what
-				// every Modifier of the code base does): the snapshot format keeps only
-				// those, the other terms of an own order are read from its live bucket
-				old := cur[o.Nonce]
-				ns := c.kitRewrite(old)
-				ns.MinUnitsMatch, ns.ChannelType, ns.Allowed, ns.NotAllowed = old.MinUnitsMatch,
-					old.ChannelType, old.Allowed, old.NotAllowed
-				ns.IsPublic, ns.AuctionType = old.IsPublic, old.AuctionType
-				rd.NewOrders = append(rd.NewOrders, ns)
-				if !rd.Delete {
-					cur[o.Nonce] = ns
+		var rd c10BatchRound
+		for p := 0; p < proposals; p++ {
+			spec := first
+			if p > 0 {
+				// re-proposal: same batch id, everything else drawn afresh
+				spec = c.g.snap()
+				spec.BatchID = first.BatchID
+			}
+			spec.Accounts, spec.Orders = nil, nil
+			rd = c10BatchRound{Kind: "batch", Snap: spec, Delete: r.Rng.Intn(5) == 0,
+				ReopenStaged: r.Rng.Intn(3) == 0, ReopenApplied: r.Rng.Intn(2) == 0}
+			if p < proposals-1 {
+				rd.Superseded, rd.Delete = true, false
+			}
+			for _, a := range bc.Accts {
+				if r.Rng.Intn(4) != 0 || len(rd.NewAccts) == 0 {
+					ns := c.g.acct()
+					ns.TraderKey, ns.Family, ns.Index = a.TraderKey, a.Family, a.Index
+					rd.NewAccts = append(rd.NewAccts, ns)
 				}
 			}
+			for _, o := range bc.Orders {
+				if r.Rng.Intn(4) != 0 || len(rd.NewOrders) == 0 {
+					// batch modifiers change base fields only (state, units, ... – what
+					// every Modifier of the code base does): the snapshot format keeps only
+					// those, the other terms of an own order are read from its live bucket
+					old := cur[o.Nonce]
+					ns := c.kitRewrite(old)
+					ns.MinUnitsMatch, ns.ChannelType, ns.Allowed, ns.NotAllowed = old.MinUnitsMatch,
+						old.ChannelType, old.Allowed, old.NotAllowed
+					ns.IsPublic, ns.AuctionType = old.IsPublic, old.AuctionType
+					rd.NewOrders = append(rd.NewOrders, ns)
+				}
+			}
+			for i := range spec.Matched {
+				spec.Matched[i].OurNonce = rd.NewOrders[r.Rng.Intn(len(rd.NewOrders))].Nonce
+			}
+			if p < proposals-1 {
+				bc.Rounds = append(bc.Rounds, rd)
+			}
 		}
-		for i := range spec.Matched {
-			spec.Matched[i].OurNonce = rd.NewOrders[r.Rng.Intn(len(rd.NewOrders))].Nonce
+		if !rd.Delete {
+			for _, ns := range rd.NewOrders {
+				cur[ns.Nonce] = ns
+			}
 		}
 		bc.Rounds = append(bc.Rounds, rd)
 	}
@@ -304,6 +328,11 @@ func (c *c10Run) batchDB(bc *c10BatchCase) {
 				"C10/batch-pending-snapshot", replay)
 		}
 		r.Evaluations++
+
+		if rd.Superseded {
+			r.Count("batchdb/superseded-proposal")
+			continue
+		}
 
 		// raw staged order buckets (+ the visible tier value), for the model of copyOrder
 		type staged struct {
